@@ -53,10 +53,32 @@ func sortQueuesByPriority(queues []*Queue) {
 	})
 }
 
+// queueFairMax keeps a queue and its fair max resource together: the sort moves the queues around and the
+// comparison must use the fair max resource that belongs to the queue, not the one at the same index.
+type queueFairMax struct {
+	queue   *Queue
+	fairMax *resources.Resource
+}
+
+// sortQueuesWithFairMax sorts the queues, and the fair max resources with them, using the less function passed in.
+func sortQueuesWithFairMax(queues []*Queue, fairMaxResources []*resources.Resource, less func(l, r queueFairMax) bool) {
+	pairs := make([]queueFairMax, len(queues))
+	for i := range queues {
+		pairs[i] = queueFairMax{queue: queues[i], fairMax: fairMaxResources[i]}
+	}
+	sort.SliceStable(pairs, func(i, j int) bool {
+		return less(pairs[i], pairs[j])
+	})
+	for i := range pairs {
+		queues[i] = pairs[i].queue
+		fairMaxResources[i] = pairs[i].fairMax
+	}
+}
+
 func sortQueuesByPriorityAndFairness(queues []*Queue, fairMaxResources []*resources.Resource) {
-	sort.SliceStable(queues, func(i, j int) bool {
-		l := queues[i]
-		r := queues[j]
+	sortQueuesWithFairMax(queues, fairMaxResources, func(left, right queueFairMax) bool {
+		l := left.queue
+		r := right.queue
 		lPriority := l.GetCurrentPriority()
 		rPriority := r.GetCurrentPriority()
 		if lPriority > rPriority {
@@ -66,8 +88,8 @@ func sortQueuesByPriorityAndFairness(queues []*Queue, fairMaxResources []*resour
 			return false
 		}
 
-		comp := resources.CompUsageRatioSeparately(l.GetAllocatedResource(), l.GetGuaranteedResource(), fairMaxResources[i],
-			r.GetAllocatedResource(), r.GetGuaranteedResource(), fairMaxResources[j])
+		comp := resources.CompUsageRatioSeparately(l.GetAllocatedResource(), l.GetGuaranteedResource(), left.fairMax,
+			r.GetAllocatedResource(), r.GetGuaranteedResource(), right.fairMax)
 
 		if comp == 0 {
 			return resources.StrictlyGreaterThan(resources.Sub(l.GetPendingResource(), r.GetPendingResource()), resources.Zero)
@@ -77,12 +99,12 @@ func sortQueuesByPriorityAndFairness(queues []*Queue, fairMaxResources []*resour
 }
 
 func sortQueuesByFairnessAndPriority(queues []*Queue, fairMaxResources []*resources.Resource) {
-	sort.SliceStable(queues, func(i, j int) bool {
-		l := queues[i]
-		r := queues[j]
+	sortQueuesWithFairMax(queues, fairMaxResources, func(left, right queueFairMax) bool {
+		l := left.queue
+		r := right.queue
 
-		comp := resources.CompUsageRatioSeparately(l.GetAllocatedResource(), l.GetGuaranteedResource(), fairMaxResources[i],
-			r.GetAllocatedResource(), r.GetGuaranteedResource(), fairMaxResources[j])
+		comp := resources.CompUsageRatioSeparately(l.GetAllocatedResource(), l.GetGuaranteedResource(), left.fairMax,
+			r.GetAllocatedResource(), r.GetGuaranteedResource(), right.fairMax)
 		if comp == 0 {
 			lPriority := l.GetCurrentPriority()
 			rPriority := r.GetCurrentPriority()
